@@ -218,7 +218,7 @@ func jsonExpressible(e *Expr) bool {
 }
 
 func knownClass(e *Expr) string {
-	if e.Op == OLit && e.Val.K == KDatetime && e.Val.I < gen.MinI+25975808 {
+	if e.Op == OLit && e.Val.K == KDatetime && e.Val.I < gen.MinI+86400000 {
 		return "datetime-in-first-representable-day"
 	}
 	if e.Op == OLit && (e.Val.K == KSet || e.Val.K == KRecord) {
